@@ -43,6 +43,7 @@ type scenario struct {
 	StopMs  int      `json:"stop_ms"`
 	Hups    []int    `json:"hups_ms"`
 	Pre     int      `json:"preexisting"`
+	Restart string   `json:"restart"` // "", "term", "kill": after the stop the tool is started again over what is there
 	Foreign int      `json:"foreign_ms"` // >0: at this time somebody else creates, in the output dir, the names of the work files
 	Seed    int64    `json:"seed"`
 }
@@ -261,25 +262,26 @@ func runScenario(base string, sc scenario, bin string) (res scenResult) {
 		// every return of that call is held for 40 ms: time for the watcher below to land the SIGKILL exactly there
 		args = append(args, "-e", "inject="+call+":delay_exit=40000")
 	}
-	args = append(args, bin,
+	toolArgs := []string{bin,
 		"-nsqd-tcp-address", n.RealTCPAddr().String(), "-topic", topicName, "-channel", channel,
 		"-output-dir", out, "-host-identifier", "h", "-datetime-format", o.DateFmt,
-		"-sync-interval", fmt.Sprintf("%dms", o.SyncMs), "-max-in-flight", strconv.Itoa(o.MaxInFlight))
+		"-sync-interval", fmt.Sprintf("%dms", o.SyncMs), "-max-in-flight", strconv.Itoa(o.MaxInFlight)}
 	if o.WorkDir {
-		args = append(args, "-work-dir", work)
+		toolArgs = append(toolArgs, "-work-dir", work)
 	}
 	if o.Gzip {
-		args = append(args, "-gzip")
+		toolArgs = append(toolArgs, "-gzip")
 	}
 	if o.SkipEmpty {
-		args = append(args, "-skip-empty-files")
+		toolArgs = append(toolArgs, "-skip-empty-files")
 	}
 	if o.RotSize > 0 {
-		args = append(args, "-rotate-size", strconv.FormatInt(o.RotSize, 10))
+		toolArgs = append(toolArgs, "-rotate-size", strconv.FormatInt(o.RotSize, 10))
 	}
 	if o.RotIntMs > 0 {
-		args = append(args, "-rotate-interval", fmt.Sprintf("%dms", o.RotIntMs))
+		toolArgs = append(toolArgs, "-rotate-interval", fmt.Sprintf("%dms", o.RotIntMs))
 	}
+	args = append(args, toolArgs...)
 	cmd := exec.Command("strace", args...)
 	cmd.Dir = base
 	tl, _ := os.Create(filepath.Join(base, "tool.log"))
@@ -441,6 +443,65 @@ func runScenario(base string, sc scenario, bin string) (res scenResult) {
 		}
 	}
 
+	// second incarnation: the tool comes back over the files the first one left, nsqd re-delivers what it still owes
+	slog2 := ""
+	if sc.Restart != "" {
+		slog2 = filepath.Join(base, "strace2.log")
+		a2 := append([]string{"-f", "-y", "-xx", "-s", "1048576", "-o", slog2, "-e", "signal=none", "-e", "trace=" + straceSet}, toolArgs...)
+		cmd2 := exec.Command("strace", a2...)
+		cmd2.Dir = base
+		tl2, _ := os.Create(filepath.Join(base, "tool2.log"))
+		cmd2.Stdout, cmd2.Stderr = tl2, tl2
+		cmd2.SysProcAttr = &syscall.SysProcAttr{Setpgid: true}
+		if err := cmd2.Start(); err != nil {
+			tl2.Close()
+			return fail("strace (2nd): %v", err)
+		}
+		done2 := make(chan error, 1)
+		go func() { done2 <- cmd2.Wait() }()
+		gone := false
+		wait2 := func(d time.Duration) bool {
+			if !gone {
+				select {
+				case <-done2:
+					gone = true
+				case <-time.After(d):
+				}
+			}
+			return gone
+		}
+		tool2 := 0
+		for dl := time.Now().Add(30 * time.Second); tool2 == 0 && time.Now().Before(dl) && !wait2(2*time.Millisecond); {
+			tool2 = childOf(cmd2.Process.Pid, bin)
+		}
+		if sc.Restart == "kill" {
+			wait2(time.Duration(200+rng.Intn(1500)) * time.Millisecond)
+			if !gone && tool2 != 0 {
+				syscall.Kill(tool2, syscall.SIGKILL)
+			}
+		} else {
+			for dl := time.Now().Add(40 * time.Second); time.Now().Before(dl) && !gone; {
+				cc, _ := channelCounts(n, topicName, channel)
+				if cc.Messages >= uint64(sc.NMsgs) && cc.Depth == 0 && cc.InFlight == 0 && cc.Deferred == 0 {
+					break
+				}
+				wait2(20 * time.Millisecond)
+			}
+			if !gone && tool2 != 0 {
+				syscall.Kill(tool2, syscall.SIGTERM)
+			}
+		}
+		if !wait2(120 * time.Second) {
+			syscall.Kill(-cmd2.Process.Pid, syscall.SIGKILL)
+			wait2(60 * time.Second)
+			res.Stuck = true
+		}
+		tl2.Close()
+		if !gone {
+			return fail("strace (2nd) did not exit")
+		}
+	}
+
 	if tb, err := os.ReadFile(filepath.Join(base, "tool.log")); err == nil {
 		for _, l := range strings.Split(string(tb), "\n") {
 			if i := strings.Index(l, "FATAL: "); i >= 0 {
@@ -577,6 +638,16 @@ func runScenario(base string, sc scenario, bin string) (res scenResult) {
 	}
 	if err := model.apply(recs); err != nil {
 		return fail("syscall log not understood: %v", err)
+	}
+	if slog2 != "" {
+		recs2, _, err := parseStrace(slog2)
+		if err != nil {
+			return fail("strace log (2nd): %v", err)
+		}
+		model.fds = map[int]*openFile{} // a new process: no descriptor survives, the files do
+		if err := model.apply(recs2); err != nil {
+			return fail("syscall log (2nd) not understood: %v", err)
+		}
 	}
 	if len(model.unknownFin) > 0 {
 		return fail("FIN for ids nobody published: %v", model.unknownFin)
